@@ -197,6 +197,45 @@ fn scenario_of(choices: &[usize]) -> Option<Scenario> {
     }
 }
 
+/// example programs of the repository that the front end accepts and lowers (as it did at the snapshot this work
+/// started from): whatever else changes, they stay templates of the language
+pub const ACCEPTED_EXAMPLES: [&str; 25] = [
+    "alias_type", "asteria", "buidler_fest_2026", "buidlr_fest", "burn", "cardano_witness", "disordered", "donation", "env_vars", "faucet",
+    "input_datum", "lang_tour", "list_concat", "list_indexing", "local_vars", "map", "min_utxo", "order-book", "posix_time", "reference_script",
+    "swap", "tip_slot", "transfer", "vesting", "withdrawal",
+];
+
+fn judge_example(name: &str, o: &mut Outcome) {
+    o.evals = 1;
+    let Ok(src) = std::fs::read_to_string(format!("/repo/examples/{name}.tx3")) else {
+        o.class("example-file-missing");
+        return;
+    };
+    match crate::engine::panics::catch(|| crate::common::pipeline::lower_source(&src)) {
+        Ok(Ok(txs)) if !txs.is_empty() => {
+            o.class("example-accepted-and-lowered");
+            o.key(hash64(&format!("example:{name}")));
+        }
+        Ok(Ok(_)) => o.class("example-without-transactions"),
+        Ok(Err(e)) => {
+            o.class("example-rejected");
+            let stage = match &e {
+                crate::common::pipeline::FrontError::Parse(_) => "parse",
+                crate::common::pipeline::FrontError::Analyze(_) => "analyze",
+                crate::common::pipeline::FrontError::Lower(..) => "lower",
+            };
+            o.violate(Violation::new(
+                format!("front-end-rejects-example|{stage}"),
+                format!("examples/{name}.tx3 is no longer accepted: {}", crate::engine::first_line(&format!("{e:?}"), 200)),
+            ));
+        }
+        Err(p) => {
+            o.class("example-panics");
+            o.violate(Violation::new(format!("front-end-rejects-example|{}", p.signature()), format!("examples/{name}.tx3: {}", p.message)));
+        }
+    }
+}
+
 impl Prop for C01 {
     fn id(&self) -> &'static str {
         "C01"
@@ -210,7 +249,8 @@ impl Prop for C01 {
              associations), mint / burn (5), datums (18 kinds: records in and out of declaration order, variants, lists, maps, spread, input datum / field / \
              list item, concat), named / optional / extra outputs, validity (7, incl. tip_slot, time_to_slot, slot_to_time), signers, metadata, \
              references, collateral, unused definitions, block order. Oracle: decoded transaction (independent CBOR and Plutus-Data readers) = [[P]] \
-             computed over the generator's own tree. Non-trivial = [[P]] defined and the payload decoded and compared; distinct = distinct scenarios.",
+             computed over the generator's own tree. Besides, the 25 example programs of the repository that the front end accepted at the \
+             starting snapshot must still parse, analyse and lower. Non-trivial = [[P]] defined and the payload decoded and compared; distinct = distinct scenarios.",
             k_for(tier)
         )
     }
@@ -228,6 +268,9 @@ impl Prop for C01 {
         case["choices"].to_string()
     }
     fn enumerate(&self, tier: Tier, sink: &mut Sink) {
+        for name in ACCEPTED_EXAMPLES {
+            sink.case(|| json!({"kind": "example-accepted", "choices": [name], "example": name}));
+        }
         let mut gen = |c: &mut Chooser| prog::generate(c);
         dbx::explore(k_for(tier), &mut gen, &mut |choices, devs, sc| {
             sink.case(|| json!({"kind": format!("program-{devs}-deviations"), "choices": choices, "labels": sc.labels}));
@@ -235,6 +278,10 @@ impl Prop for C01 {
     }
     fn run(&self, case: &Value) -> Outcome {
         let mut o = Outcome::default();
+        if let Some(name) = case["example"].as_str() {
+            judge_example(name, &mut o);
+            return o;
+        }
         let choices: Vec<usize> = case["choices"].as_array().map(|a| a.iter().filter_map(|x| x.as_u64().map(|x| x as usize)).collect()).unwrap_or_default();
         let Some(sc) = scenario_of(&choices) else {
             panic!("harness: choice sequence {choices:?} does not fit the generator");
